@@ -42,6 +42,8 @@ CONSTANTS
   MaxInstr, MaxTx,                  \* instructions per transaction (without the end), transactions per history
   SupplyCap,                        \* bound on the amount in circulation (model bound, not engine behaviour)
   DataVals,                         \* values written by UpdateNFData
+  ConsArgs,                         \* resource constraints usable as arguments: set of functions [resources -> constraint]
+  ConArgs,                          \* single constraints usable for ASSERT_BUCKET_CONTENTS
   InitLedgers                       \* set of initial ledgers [vault, supply, data, ever, ctr]
 
 Res  == DOMAIN ResDef
@@ -66,6 +68,7 @@ VARIABLES
   np,         \* named proofs:  sequence of [live, p]         (index = manifest proof id + 1)
   az,         \* auth zone: sequence of proofs (a stack, top = last)
   sigs,       \* the signature (virtual) proofs of the transaction signers are still in the auth zone
+  nextc,      \* pending ASSERT_NEXT_CALL_RETURNS_*: [on, only, c]
   minted, burned,  \* per transaction: [resource -> [amt, ids]]
   pre,        \* the ledger when the current transaction started = last committed ledger
   status,     \* "run" inside a transaction, "ok" / "fail" after one, "init" at genesis
@@ -74,8 +77,8 @@ VARIABLES
   last        \* the last instruction and its outcome (observation, not part of the view)
 
 ledgerVars == <<vault, supply, data, ever, ctr>>
-txVars     == <<wt, nb, np, az, sigs, minted, burned>>
-vars == <<vault, supply, data, ever, ctr, wt, nb, np, az, sigs, minted, burned, pre, status, nins, ntx, mintCount, last>>
+txVars     == <<wt, nb, np, az, sigs, nextc, minted, burned>>
+vars == <<vault, supply, data, ever, ctr, wt, nb, np, az, sigs, nextc, minted, burned, pre, status, nins, ntx, mintCount, last>>
 
 -----------------------------------------------------------------------------
 (* Containers *)
@@ -135,10 +138,13 @@ W0 == [on |-> FALSE, c |-> C0]
 Acc0 == [r \in Res |-> [amt |-> 0, ids |-> {}]]
 Wt0 == [r \in Res |-> W0]
 
-I(op, a, r, n, ids, k, f, v) == [op |-> op, a |-> a, r |-> r, n |-> n, ids |-> ids, k |-> k, f |-> f, v |-> v]
+NoCons == [x \in {} |-> 0]
+I(op, a, r, n, ids, k, f, v) == [op |-> op, a |-> a, r |-> r, n |-> n, ids |-> ids, k |-> k, f |-> f, v |-> v, c |-> NoCons]
+IC(op, k, c) == [I(op, "", "", 0, {}, k, "", 0) EXCEPT !.c = c]        \* an assertion with resource constraints c
+NextC0 == [on |-> FALSE, only |-> FALSE, c |-> NoCons]
 
 Cur == [vault |-> vault, supply |-> supply, data |-> data, ever |-> ever, ctr |-> ctr,
-        wt |-> wt, nb |-> nb, np |-> np, az |-> az, sigs |-> sigs, minted |-> minted, burned |-> burned,
+        wt |-> wt, nb |-> nb, np |-> np, az |-> az, sigs |-> sigs, nextc |-> nextc, minted |-> minted, burned |-> burned,
         ok |-> TRUE, err |-> ""]
 Fl(S, e) == [S EXCEPT !.ok = FALSE, !.err = e]
 
@@ -402,6 +408,34 @@ AzProofOfAll(S, r) ==
   IF IsF(r) THEN Compose(S, r, SumQ(S, r, QuotaRefs(S, r)), {})
   ELSE Compose(S, r, 0, UNION {QuotaIds(S, r, ref) : ref \in QuotaRefs(S, r)})
 
+\* ---- resource constraints (ManifestResourceConstraints): a constraint is [k, n, ids] with k = "nz" (non-zero amount),
+\* "ex" / "al" (exact / at least amount n), "exnf" / "alnf" (exactly / at least the ids); a non-fungible constraint on a
+\* fungible resource never holds.  `only`: resources that are not listed must have a zero balance.
+Kc(k, n, ids) == [k |-> k, n |-> n, ids |-> ids]
+COk(r, c, amt, ids) ==
+  CASE c.k = "nz" -> amt > 0
+    [] c.k = "ex" -> amt = c.n
+    [] c.k = "al" -> amt >= c.n
+    [] c.k = "exnf" -> ~IsF(r) /\ ids = c.ids
+    [] c.k = "alnf" -> ~IsF(r) /\ c.ids \subseteq ids
+ConsOk(cons, bal, only) ==      \* bal: [resource -> [amt, ids]]
+  /\ only => \A r \in Res \ DOMAIN cons : bal[r].amt = 0
+  /\ \A r \in DOMAIN cons : COk(r, cons[r], bal[r].amt, bal[r].ids)
+WtBal(S) == [r \in Res |-> [amt |-> WtTotal(S, r), ids |-> IF S.wt[r].on THEN AllIds(S.wt[r].c) ELSE {}]]
+AssertResources(S, only, cons) == IF ConsOk(cons, WtBal(S), only) THEN S ELSE Fl(S, "AssertionFailed")
+AssertNextCall(S, only, cons) == [S EXCEPT !.nextc = [on |-> TRUE, only |-> only, c |-> cons]]
+AssertBucket(S, k, con) ==
+  IF ~S.nb[k].live THEN Fl(S, "BucketNotFound")
+  ELSE IF COk(S.nb[k].res, con, Total(S.nb[k].res, S.nb[k].c), AllIds(S.nb[k].c)) THEN S ELSE Fl(S, "AssertBucketContentsFailed")
+\* Every invocation (method call, direct vault call, BURN_RESOURCE) consumes a pending ASSERT_NEXT_CALL_RETURNS_*: the buckets the
+\* call returned (= what it added to the worktop; empty buckets do not count) must satisfy it.  R = the state after the call.
+Returned(S, R) == [r \in Res |-> [amt |-> Max0(WtTotal(R, r) - WtTotal(S, r)),
+                                   ids |-> (IF R.wt[r].on THEN AllIds(R.wt[r].c) ELSE {}) \ (IF S.wt[r].on THEN AllIds(S.wt[r].c) ELSE {})]]
+Call(S, R) ==
+  IF ~R.ok \/ ~S.nextc.on THEN R
+  ELSE IF ConsOk(S.nextc.c, Returned(S, R), S.nextc.only) THEN [R EXCEPT !.nextc = NextC0]
+  ELSE Fl(S, "AssertNextCallReturnsFailed")
+
 AssertContains(S, r, n) == IF WtTotal(S, r) < n THEN Fl(S, "AssertionFailed") ELSE S
 AssertAny(S, r) == IF WtTotal(S, r) = 0 THEN Fl(S, "AssertionFailed") ELSE S
 AssertNF(S, r, ids) == IF (S.wt[r].on /\ ids \subseteq AllIds(S.wt[r].c)) \/ ids = {} THEN S ELSE Fl(S, "AssertionFailed")
@@ -415,29 +449,29 @@ UpdateNFData(S, r, id, f, v) ==
   ELSE Fl(S, "NonFungibleNotFound")
 
 Exec(S, i) ==
-  CASE i.op = "Withdraw"         -> Withdraw(S, i.a, i.r, i.n)
-    [] i.op = "WithdrawNF"       -> WithdrawNF(S, i.a, i.r, i.ids)
+  CASE i.op = "Withdraw"         -> Call(S, Withdraw(S, i.a, i.r, i.n))
+    [] i.op = "WithdrawNF"       -> Call(S, WithdrawNF(S, i.a, i.r, i.ids))
     [] i.op = "TakeFromWorktop"  -> TakeFromWorktop(S, i.r, i.n)
     [] i.op = "TakeNF"           -> TakeNF(S, i.r, i.ids)
     [] i.op = "TakeAll"          -> TakeAll(S, i.r)
     [] i.op = "ReturnToWorktop"  -> ReturnToWorktop(S, i.k)
-    [] i.op = "Deposit"          -> Deposit(S, i.a, i.k)
-    [] i.op = "DepositBatch"     -> DepositBatch(S, i.a)
-    [] i.op = "Mint"             -> Mint(S, i.r, i.n)
-    [] i.op = "MintNF"           -> MintNF(S, i.r, i.ids)
-    [] i.op = "MintNFWrongType"  -> MintNFWrongType(S, i.r)
-    [] i.op = "MintRuid"         -> MintRuid(S, i.r, i.n)
-    [] i.op = "MintSingleRuid"   -> MintSingleRuid(S, i.r)
-    [] i.op = "WithdrawNFAmount" -> WithdrawNFAmount(S, i.a, i.r, i.n)
-    [] i.op = "BurnNFAmountInAccount" -> BurnNFAmountInAccount(S, i.a, i.r, i.n)
-    [] i.op = "RecallNFAmount"   -> RecallNFAmount(S, i.a, i.r, i.n)
-    [] i.op = "Burn"             -> Burn(S, i.k)
-    [] i.op = "BurnInAccount"    -> BurnInAccount(S, i.a, i.r, i.n)
-    [] i.op = "BurnNFInAccount"  -> BurnNFInAccount(S, i.a, i.r, i.ids)
-    [] i.op = "Recall"           -> Recall(S, i.a, i.r, i.n)
-    [] i.op = "RecallNF"         -> RecallNF(S, i.a, i.r, i.ids)
-    [] i.op = "ProofOfAmount"    -> ProofFromAccount(S, i.a, i.r, i.n, {})
-    [] i.op = "ProofOfNF"        -> ProofFromAccount(S, i.a, i.r, 0, i.ids)
+    [] i.op = "Deposit"          -> Call(S, Deposit(S, i.a, i.k))
+    [] i.op = "DepositBatch"     -> Call(S, DepositBatch(S, i.a))
+    [] i.op = "Mint"             -> Call(S, Mint(S, i.r, i.n))
+    [] i.op = "MintNF"           -> Call(S, MintNF(S, i.r, i.ids))
+    [] i.op = "MintNFWrongType"  -> Call(S, MintNFWrongType(S, i.r))
+    [] i.op = "MintRuid"         -> Call(S, MintRuid(S, i.r, i.n))
+    [] i.op = "MintSingleRuid"   -> Call(S, MintSingleRuid(S, i.r))
+    [] i.op = "WithdrawNFAmount" -> Call(S, WithdrawNFAmount(S, i.a, i.r, i.n))
+    [] i.op = "BurnNFAmountInAccount" -> Call(S, BurnNFAmountInAccount(S, i.a, i.r, i.n))
+    [] i.op = "RecallNFAmount"   -> Call(S, RecallNFAmount(S, i.a, i.r, i.n))
+    [] i.op = "Burn"             -> Call(S, Burn(S, i.k))
+    [] i.op = "BurnInAccount"    -> Call(S, BurnInAccount(S, i.a, i.r, i.n))
+    [] i.op = "BurnNFInAccount"  -> Call(S, BurnNFInAccount(S, i.a, i.r, i.ids))
+    [] i.op = "Recall"           -> Call(S, Recall(S, i.a, i.r, i.n))
+    [] i.op = "RecallNF"         -> Call(S, RecallNF(S, i.a, i.r, i.ids))
+    [] i.op = "ProofOfAmount"    -> Call(S, ProofFromAccount(S, i.a, i.r, i.n, {}))
+    [] i.op = "ProofOfNF"        -> Call(S, ProofFromAccount(S, i.a, i.r, 0, i.ids))
     [] i.op = "BucketProofOfAmount" -> ProofFromBucket(S, i.k, i.n, {})
     [] i.op = "BucketProofOfNF"  -> ProofFromBucket(S, i.k, 0, i.ids)
     [] i.op = "BucketProofOfAll" -> ProofFromBucketAll(S, i.k)
@@ -453,10 +487,15 @@ Exec(S, i) ==
     [] i.op = "AzProofOfAmount"  -> AzProofOfAmount(S, i.r, i.n)
     [] i.op = "AzProofOfNF"      -> AzProofOfNF(S, i.r, i.ids)
     [] i.op = "AzProofOfAll"     -> AzProofOfAll(S, i.r)
+    [] i.op = "AssertResOnly"    -> AssertResources(S, TRUE, i.c)
+    [] i.op = "AssertResInclude" -> AssertResources(S, FALSE, i.c)
+    [] i.op = "AssertNextCallOnly" -> AssertNextCall(S, TRUE, i.c)
+    [] i.op = "AssertNextCallInclude" -> AssertNextCall(S, FALSE, i.c)
+    [] i.op = "AssertBucket"     -> AssertBucket(S, i.k, i.c.b)
     [] i.op = "AssertContains"   -> AssertContains(S, i.r, i.n)
     [] i.op = "AssertAny"        -> AssertAny(S, i.r)
     [] i.op = "AssertNF"         -> AssertNF(S, i.r, i.ids)
-    [] i.op = "UpdateNFData"     -> UpdateNFData(S, i.r, i.k, i.f, i.v)
+    [] i.op = "UpdateNFData"     -> Call(S, UpdateNFData(S, i.r, i.k, i.f, i.v))
 
 \* End of the manifest: Worktop::drop (every bucket must be empty), no bucket may stay in the name table
 \* (orphaned node), the remaining proofs are dropped automatically.
@@ -518,6 +557,8 @@ CandOf(S, op) ==
        [] op = "AzProofOfAmount" -> IF canP THEN {I(op, "", r, n, {}, 0, "", 0) : r \in FRes, n \in AmtArgs} ELSE {}
        [] op = "AzProofOfNF" -> IF canP THEN ResIds ELSE {}
        [] op = "AzProofOfAll" -> IF canP THEN {I(op, "", r, 0, {}, 0, "", 0) : r \in Res} ELSE {}
+       [] op \in {"AssertResOnly", "AssertResInclude", "AssertNextCallOnly", "AssertNextCallInclude"} -> {IC(op, 0, c) : c \in ConsArgs}
+       [] op = "AssertBucket" -> {IC(op, k, [b |-> c]) : k \in bks, c \in ConArgs}
        [] op = "AssertContains" -> {I(op, "", r, n, {}, 0, "", 0) : r \in Res, n \in AmtArgs}
        [] op = "AssertAny" -> {I(op, "", r, 0, {}, 0, "", 0) : r \in Res}
        [] op = "AssertNF" -> ResIds
@@ -529,9 +570,9 @@ Cand(S) == UNION {CandOf(S, op) : op \in Ops}
 LedgerOf(S) == [vault |-> S.vault, supply |-> S.supply, data |-> S.data, ever |-> S.ever, ctr |-> S.ctr]
 ThisLedger == [vault |-> vault, supply |-> supply, data |-> data, ever |-> ever, ctr |-> ctr]
 SetLedger(L) == /\ vault' = L.vault /\ supply' = L.supply /\ data' = L.data /\ ever' = L.ever /\ ctr' = L.ctr
-ClearTx == /\ wt' = Wt0 /\ nb' = <<>> /\ np' = <<>> /\ az' = <<>> /\ sigs' = TRUE
+ClearTx == /\ wt' = Wt0 /\ nb' = <<>> /\ np' = <<>> /\ az' = <<>> /\ sigs' = TRUE /\ nextc' = NextC0
            /\ minted' = Acc0 /\ burned' = Acc0
-SetTx(S) == /\ wt' = S.wt /\ nb' = S.nb /\ np' = S.np /\ az' = S.az /\ sigs' = S.sigs
+SetTx(S) == /\ wt' = S.wt /\ nb' = S.nb /\ np' = S.np /\ az' = S.az /\ sigs' = S.sigs /\ nextc' = S.nextc
             /\ minted' = S.minted /\ burned' = S.burned
 EndIns == I("EndTx", "", "", 0, {}, 0, "", 0)
 
@@ -539,7 +580,7 @@ Init ==
   /\ \E L \in InitLedgers : /\ vault = L.vault /\ supply = L.supply /\ data = L.data /\ ever = L.ever /\ ctr = L.ctr
                             /\ pre = L
                             /\ mintCount = [r \in NRes |-> [x \in ResDef[r].uni |-> IF x \in L.ever[r] THEN 1 ELSE 0]]
-  /\ wt = Wt0 /\ nb = <<>> /\ np = <<>> /\ az = <<>> /\ sigs = TRUE /\ minted = Acc0 /\ burned = Acc0
+  /\ wt = Wt0 /\ nb = <<>> /\ np = <<>> /\ az = <<>> /\ sigs = TRUE /\ nextc = NextC0 /\ minted = Acc0 /\ burned = Acc0
   /\ status = "init" /\ nins = 0 /\ ntx = 0
   /\ last = [ins |-> EndIns, ok |-> TRUE, err |-> ""]
 
@@ -571,25 +612,25 @@ EndTx ==
         ELSE Failed(EndIns, R.err)
   /\ UNCHANGED ntx
 
-IWithdraw == "Withdraw" \in Ops /\ \E ins \in CandOf(Cur, "Withdraw") : StepR(ins, Withdraw(Cur, ins.a, ins.r, ins.n))
-IWithdrawNF == "WithdrawNF" \in Ops /\ \E ins \in CandOf(Cur, "WithdrawNF") : StepR(ins, WithdrawNF(Cur, ins.a, ins.r, ins.ids))
+IWithdraw == "Withdraw" \in Ops /\ \E ins \in CandOf(Cur, "Withdraw") : StepR(ins, Call(Cur, Withdraw(Cur, ins.a, ins.r, ins.n)))
+IWithdrawNF == "WithdrawNF" \in Ops /\ \E ins \in CandOf(Cur, "WithdrawNF") : StepR(ins, Call(Cur, WithdrawNF(Cur, ins.a, ins.r, ins.ids)))
 ITakeFromWorktop == "TakeFromWorktop" \in Ops /\ \E ins \in CandOf(Cur, "TakeFromWorktop") : StepR(ins, TakeFromWorktop(Cur, ins.r, ins.n))
 ITakeNF == "TakeNF" \in Ops /\ \E ins \in CandOf(Cur, "TakeNF") : StepR(ins, TakeNF(Cur, ins.r, ins.ids))
 ITakeAll == "TakeAll" \in Ops /\ \E ins \in CandOf(Cur, "TakeAll") : StepR(ins, TakeAll(Cur, ins.r))
 IReturnToWorktop == "ReturnToWorktop" \in Ops /\ \E ins \in CandOf(Cur, "ReturnToWorktop") : StepR(ins, ReturnToWorktop(Cur, ins.k))
-IDeposit == "Deposit" \in Ops /\ \E ins \in CandOf(Cur, "Deposit") : StepR(ins, Deposit(Cur, ins.a, ins.k))
-IDepositBatch == "DepositBatch" \in Ops /\ \E ins \in CandOf(Cur, "DepositBatch") : StepR(ins, DepositBatch(Cur, ins.a))
-IMint == "Mint" \in Ops /\ \E ins \in CandOf(Cur, "Mint") : StepR(ins, Mint(Cur, ins.r, ins.n))
-IMintNF == "MintNF" \in Ops /\ \E ins \in CandOf(Cur, "MintNF") : StepR(ins, MintNF(Cur, ins.r, ins.ids))
-IMintNFWrongType == "MintNFWrongType" \in Ops /\ \E ins \in CandOf(Cur, "MintNFWrongType") : StepR(ins, MintNFWrongType(Cur, ins.r))
-IMintRuid == "MintRuid" \in Ops /\ \E ins \in CandOf(Cur, "MintRuid") : StepR(ins, MintRuid(Cur, ins.r, ins.n))
-IBurn == "Burn" \in Ops /\ \E ins \in CandOf(Cur, "Burn") : StepR(ins, Burn(Cur, ins.k))
-IBurnInAccount == "BurnInAccount" \in Ops /\ \E ins \in CandOf(Cur, "BurnInAccount") : StepR(ins, BurnInAccount(Cur, ins.a, ins.r, ins.n))
-IBurnNFInAccount == "BurnNFInAccount" \in Ops /\ \E ins \in CandOf(Cur, "BurnNFInAccount") : StepR(ins, BurnNFInAccount(Cur, ins.a, ins.r, ins.ids))
-IRecall == "Recall" \in Ops /\ \E ins \in CandOf(Cur, "Recall") : StepR(ins, Recall(Cur, ins.a, ins.r, ins.n))
-IRecallNF == "RecallNF" \in Ops /\ \E ins \in CandOf(Cur, "RecallNF") : StepR(ins, RecallNF(Cur, ins.a, ins.r, ins.ids))
-IProofOfAmount == "ProofOfAmount" \in Ops /\ \E ins \in CandOf(Cur, "ProofOfAmount") : StepR(ins, ProofFromAccount(Cur, ins.a, ins.r, ins.n, {}))
-IProofOfNF == "ProofOfNF" \in Ops /\ \E ins \in CandOf(Cur, "ProofOfNF") : StepR(ins, ProofFromAccount(Cur, ins.a, ins.r, 0, ins.ids))
+IDeposit == "Deposit" \in Ops /\ \E ins \in CandOf(Cur, "Deposit") : StepR(ins, Call(Cur, Deposit(Cur, ins.a, ins.k)))
+IDepositBatch == "DepositBatch" \in Ops /\ \E ins \in CandOf(Cur, "DepositBatch") : StepR(ins, Call(Cur, DepositBatch(Cur, ins.a)))
+IMint == "Mint" \in Ops /\ \E ins \in CandOf(Cur, "Mint") : StepR(ins, Call(Cur, Mint(Cur, ins.r, ins.n)))
+IMintNF == "MintNF" \in Ops /\ \E ins \in CandOf(Cur, "MintNF") : StepR(ins, Call(Cur, MintNF(Cur, ins.r, ins.ids)))
+IMintNFWrongType == "MintNFWrongType" \in Ops /\ \E ins \in CandOf(Cur, "MintNFWrongType") : StepR(ins, Call(Cur, MintNFWrongType(Cur, ins.r)))
+IMintRuid == "MintRuid" \in Ops /\ \E ins \in CandOf(Cur, "MintRuid") : StepR(ins, Call(Cur, MintRuid(Cur, ins.r, ins.n)))
+IBurn == "Burn" \in Ops /\ \E ins \in CandOf(Cur, "Burn") : StepR(ins, Call(Cur, Burn(Cur, ins.k)))
+IBurnInAccount == "BurnInAccount" \in Ops /\ \E ins \in CandOf(Cur, "BurnInAccount") : StepR(ins, Call(Cur, BurnInAccount(Cur, ins.a, ins.r, ins.n)))
+IBurnNFInAccount == "BurnNFInAccount" \in Ops /\ \E ins \in CandOf(Cur, "BurnNFInAccount") : StepR(ins, Call(Cur, BurnNFInAccount(Cur, ins.a, ins.r, ins.ids)))
+IRecall == "Recall" \in Ops /\ \E ins \in CandOf(Cur, "Recall") : StepR(ins, Call(Cur, Recall(Cur, ins.a, ins.r, ins.n)))
+IRecallNF == "RecallNF" \in Ops /\ \E ins \in CandOf(Cur, "RecallNF") : StepR(ins, Call(Cur, RecallNF(Cur, ins.a, ins.r, ins.ids)))
+IProofOfAmount == "ProofOfAmount" \in Ops /\ \E ins \in CandOf(Cur, "ProofOfAmount") : StepR(ins, Call(Cur, ProofFromAccount(Cur, ins.a, ins.r, ins.n, {})))
+IProofOfNF == "ProofOfNF" \in Ops /\ \E ins \in CandOf(Cur, "ProofOfNF") : StepR(ins, Call(Cur, ProofFromAccount(Cur, ins.a, ins.r, 0, ins.ids)))
 IBucketProofOfAmount == "BucketProofOfAmount" \in Ops /\ \E ins \in CandOf(Cur, "BucketProofOfAmount") : StepR(ins, ProofFromBucket(Cur, ins.k, ins.n, {}))
 IBucketProofOfNF == "BucketProofOfNF" \in Ops /\ \E ins \in CandOf(Cur, "BucketProofOfNF") : StepR(ins, ProofFromBucket(Cur, ins.k, 0, ins.ids))
 IBucketProofOfAll == "BucketProofOfAll" \in Ops /\ \E ins \in CandOf(Cur, "BucketProofOfAll") : StepR(ins, ProofFromBucketAll(Cur, ins.k))
@@ -605,14 +646,19 @@ IDropAuthZoneSignatureProofs == "DropAuthZoneSignatureProofs" \in Ops /\ \E ins 
 IAzProofOfAmount == "AzProofOfAmount" \in Ops /\ \E ins \in CandOf(Cur, "AzProofOfAmount") : StepR(ins, AzProofOfAmount(Cur, ins.r, ins.n))
 IAzProofOfNF == "AzProofOfNF" \in Ops /\ \E ins \in CandOf(Cur, "AzProofOfNF") : StepR(ins, AzProofOfNF(Cur, ins.r, ins.ids))
 IAzProofOfAll == "AzProofOfAll" \in Ops /\ \E ins \in CandOf(Cur, "AzProofOfAll") : StepR(ins, AzProofOfAll(Cur, ins.r))
-IMintSingleRuid == "MintSingleRuid" \in Ops /\ \E ins \in CandOf(Cur, "MintSingleRuid") : StepR(ins, MintSingleRuid(Cur, ins.r))
-IWithdrawNFAmount == "WithdrawNFAmount" \in Ops /\ \E ins \in CandOf(Cur, "WithdrawNFAmount") : StepR(ins, WithdrawNFAmount(Cur, ins.a, ins.r, ins.n))
-IBurnNFAmountInAccount == "BurnNFAmountInAccount" \in Ops /\ \E ins \in CandOf(Cur, "BurnNFAmountInAccount") : StepR(ins, BurnNFAmountInAccount(Cur, ins.a, ins.r, ins.n))
-IRecallNFAmount == "RecallNFAmount" \in Ops /\ \E ins \in CandOf(Cur, "RecallNFAmount") : StepR(ins, RecallNFAmount(Cur, ins.a, ins.r, ins.n))
+IMintSingleRuid == "MintSingleRuid" \in Ops /\ \E ins \in CandOf(Cur, "MintSingleRuid") : StepR(ins, Call(Cur, MintSingleRuid(Cur, ins.r)))
+IWithdrawNFAmount == "WithdrawNFAmount" \in Ops /\ \E ins \in CandOf(Cur, "WithdrawNFAmount") : StepR(ins, Call(Cur, WithdrawNFAmount(Cur, ins.a, ins.r, ins.n)))
+IBurnNFAmountInAccount == "BurnNFAmountInAccount" \in Ops /\ \E ins \in CandOf(Cur, "BurnNFAmountInAccount") : StepR(ins, Call(Cur, BurnNFAmountInAccount(Cur, ins.a, ins.r, ins.n)))
+IRecallNFAmount == "RecallNFAmount" \in Ops /\ \E ins \in CandOf(Cur, "RecallNFAmount") : StepR(ins, Call(Cur, RecallNFAmount(Cur, ins.a, ins.r, ins.n)))
+IAssertResOnly == "AssertResOnly" \in Ops /\ \E ins \in CandOf(Cur, "AssertResOnly") : StepR(ins, AssertResources(Cur, TRUE, ins.c))
+IAssertResInclude == "AssertResInclude" \in Ops /\ \E ins \in CandOf(Cur, "AssertResInclude") : StepR(ins, AssertResources(Cur, FALSE, ins.c))
+IAssertNextCallOnly == "AssertNextCallOnly" \in Ops /\ \E ins \in CandOf(Cur, "AssertNextCallOnly") : StepR(ins, AssertNextCall(Cur, TRUE, ins.c))
+IAssertNextCallInclude == "AssertNextCallInclude" \in Ops /\ \E ins \in CandOf(Cur, "AssertNextCallInclude") : StepR(ins, AssertNextCall(Cur, FALSE, ins.c))
+IAssertBucket == "AssertBucket" \in Ops /\ \E ins \in CandOf(Cur, "AssertBucket") : StepR(ins, AssertBucket(Cur, ins.k, ins.c.b))
 IAssertContains == "AssertContains" \in Ops /\ \E ins \in CandOf(Cur, "AssertContains") : StepR(ins, AssertContains(Cur, ins.r, ins.n))
 IAssertAny == "AssertAny" \in Ops /\ \E ins \in CandOf(Cur, "AssertAny") : StepR(ins, AssertAny(Cur, ins.r))
 IAssertNF == "AssertNF" \in Ops /\ \E ins \in CandOf(Cur, "AssertNF") : StepR(ins, AssertNF(Cur, ins.r, ins.ids))
-IUpdateNFData == "UpdateNFData" \in Ops /\ \E ins \in CandOf(Cur, "UpdateNFData") : StepR(ins, UpdateNFData(Cur, ins.r, ins.k, ins.f, ins.v))
+IUpdateNFData == "UpdateNFData" \in Ops /\ \E ins \in CandOf(Cur, "UpdateNFData") : StepR(ins, Call(Cur, UpdateNFData(Cur, ins.r, ins.k, ins.f, ins.v)))
 Next == \/ EndTx
         \/ IWithdraw
         \/ IWithdrawNF
@@ -645,6 +691,7 @@ Next == \/ EndTx
         \/ IDropAuthZoneProofs
         \/ IDropAuthZoneRegularProofs
         \/ IAssertContains
+        \/ IAssertResOnly \/ IAssertResInclude \/ IAssertNextCallOnly \/ IAssertNextCallInclude \/ IAssertBucket
         \/ IMintSingleRuid \/ IWithdrawNFAmount \/ IBurnNFAmountInAccount \/ IRecallNFAmount
         \/ IDropAuthZoneSignatureProofs \/ IAzProofOfAmount \/ IAzProofOfNF \/ IAzProofOfAll
         \/ IAssertAny
@@ -717,6 +764,20 @@ AssertExact ==
      /\ (LOp = "AssertAny" => (last'.ok <=> WtTotal(Cur, LIn.r) > 0))
      /\ (LOp = "AssertNF" => (last'.ok <=> LIn.ids \subseteq (IF wt[LIn.r].on THEN AllIds(wt[LIn.r].c) ELSE {})))
      /\ (LOp \in {"AssertContains", "AssertAny", "AssertNF"} /\ last'.ok => UNCHANGED <<vault, wt, nb, np, az>>)]_vars
+CallOps == {"Withdraw", "WithdrawNF", "WithdrawNFAmount", "Deposit", "DepositBatch", "Mint", "MintNF", "MintNFWrongType", "MintRuid", "MintSingleRuid", "Burn", "BurnInAccount", "BurnNFInAccount", "BurnNFAmountInAccount", "Recall", "RecallNF", "RecallNFAmount", "ProofOfAmount", "ProofOfNF", "UpdateNFData"}
+ResAssertExact ==    \* the V2 assertions pass exactly when the worktop / the bucket / the returned buckets satisfy them, and change nothing
+  [][/\ (LOp \in {"AssertResOnly", "AssertResInclude"} =>
+           (last'.ok <=> /\ \A r \in DOMAIN LIn.c : COk(r, LIn.c[r], WtTotal(Cur, r), IF wt[r].on THEN AllIds(wt[r].c) ELSE {})
+                         /\ (LOp = "AssertResOnly" => {r \in Res : wt[r].on} \subseteq DOMAIN LIn.c)))
+     /\ (LOp = "AssertBucket" /\ LIn.k \in DOMAIN nb /\ nb[LIn.k].live =>
+           (last'.ok <=> COk(nb[LIn.k].res, LIn.c.b, Total(nb[LIn.k].res, nb[LIn.k].c), AllIds(nb[LIn.k].c))))
+     /\ (LOp \in {"AssertResOnly", "AssertResInclude", "AssertBucket"} /\ last'.ok => UNCHANGED <<vault, wt, nb, np, az, nextc>>)
+     /\ (LOp \in {"AssertNextCallOnly", "AssertNextCallInclude"} => last'.ok /\ nextc'.on /\ nextc'.c = LIn.c /\ UNCHANGED <<vault, wt, nb, np, az>>)
+     /\ (nextc.on /\ status = "run" /\ status' = "run" /\ LOp \in CallOps =>       \* a call that went through satisfied the pending assertion
+           /\ ~nextc'.on
+           /\ \A r \in DOMAIN nextc.c : COk(r, nextc.c[r], Max0(WtTotal([wt |-> wt'], r) - WtTotal(Cur, r)),
+                                               (IF wt'[r].on THEN AllIds(wt'[r].c) ELSE {}) \ (IF wt[r].on THEN AllIds(wt[r].c) ELSE {}))
+           /\ (nextc.only => \A r \in Res \ DOMAIN nextc.c : WtTotal([wt |-> wt'], r) <= WtTotal(Cur, r)))]_vars
 BucketOps == {"ReturnToWorktop", "Deposit", "Burn", "BucketProofOfAmount", "BucketProofOfNF", "BucketProofOfAll"}
 ProofOps  == {"PushToAuthZone", "CloneProof", "DropProof"}
 UseAfterConsume ==
